@@ -511,6 +511,7 @@ class Interp:
         remaining = self.facts.get(key, {-1, 0, 1})
         if hinted is not None:
             remaining = remaining & (hinted if orient == 1 else {-s for s in hinted})
+            self.facts[key] = set(remaining)       # what the property's domain says about this quantity is a fact of the path
         if remaining <= ts:
             return True
         if not (remaining & ts):
@@ -2353,7 +2354,7 @@ class Interp:
             if isinstance(c, ClassRef) and c.name in self.pkg.classes:
                 if v.ndim != 1:
                     raise self.unsupported("view of 2-D array as pose", n)
-                return Pose(c.name, list(v.data))
+                return Pose(c.name, v.data)     # a view: the pose shares its storage with the array it was made from
             if isinstance(c, ClassRef) and c.name == "ndarray":
                 return Arr(v.data, v.ndim)      # a plain-ndarray view shares the data
             raise self.unsupported("view(%r)" % (c,), n)
@@ -3064,6 +3065,11 @@ class Interp:
             return
         raise LossyOperation("array constructed with a non-float64 dtype", self.where(n))
 
+    @staticmethod
+    def is_float64(d):
+        return d is None or (isinstance(d, Opaque) and d.kind in ("dtype", "npfunc") and d.payload and d.payload[0] in ("float64", "float_", "double")) or \
+            (isinstance(d, ClassRef) and d.name == "float")
+
     def to_arr(self, v, node):
         if isinstance(v, Obj) and getattr(v, "tuple_fields", None):
             v = [v.fields[k] for k in v.tuple_fields]
@@ -3097,7 +3103,34 @@ class Interp:
             a, b = math.isqrt(f.numerator), math.isqrt(f.denominator)
             if a * a == f.numerator and b * b == f.denominator:
                 return Poly.const(Fraction(a, b))
+        if c is None and not self.sqrt_arg_nonnegative(p):
+            # the argument may be negative on this path: explore both; the negative branch produces nan
+            if not self.decide_sign(p, {0, 1}, "%s >= 0" % p.short(60)):
+                raise PathRaise("FloatingPointError(sqrt of a negative number: nan)", self.where(node))
         return poly.atom("sqrt", p)
+
+    def sqrt_arg_nonnegative(self, p):
+        """Is p >= 0 on this path for a reason that needs no decision?  (sum of squares; c - n^2 with 0 <= n <= sqrt(c) known)"""
+        if all(c_ > 0 and all(e % 2 == 0 for _v, e in m) for m, c_ in p.t.items()):
+            return True
+        if self.known_positive(p):
+            return True
+        for i, (kind, arg) in poly.R.atom_arg.items():
+            rest = p + arg
+            c_ = rest.const_value()
+            if c_ is None or c_ <= 0:
+                continue
+            f = Fraction(c_)
+            import math
+            a, b = math.isqrt(f.numerator), math.isqrt(f.denominator)
+            if a * a != f.numerator or b * b != f.denominator:
+                continue
+            n_ = Poly.var(poly.R.vars[i])
+            key, orient = SignFacts.canon(n_ - Poly.const(Fraction(a, b)))
+            signs = self.facts.get(key)
+            if signs is not None and {x * orient for x in signs} <= {-1, 0}:
+                return True         # n <= sqrt(c)  and  n >= 0  =>  c - n^2 >= 0
+        return False
 
     def cos_sin(self, p, node):
         """(cos p, sin p) for an angle expression p = sum k_i * angle_i + c*pi/2 (k_i integer)."""
@@ -3165,6 +3198,24 @@ class Interp:
         return _dotp(a.data, b.data)
 
     def npfunc(self, name, args, kw, n):
+        if "out" in kw:
+            # ufunc(..., out=target): the result is written into `target` in place, and `target` is returned
+            kw = dict(kw)
+            target = kw.pop("out")
+            if isinstance(target, tuple) and len(target) == 1:
+                target = target[0]
+            res = self.npfunc(name, args, kw, n)
+            if target is None:
+                return res
+            if not isinstance(target, Arr) or not isinstance(res, Arr) or res.shape != target.shape:
+                raise self.unsupported("out= with mismatching shapes", n)
+            if target.ndim == 2:
+                for r_, row in zip(target.data, res.data):
+                    r_[:] = list(row)
+            else:
+                target.data[:] = list(res.data)
+            self.after_write(target)
+            return target
         args = [a.drain() if isinstance(a, LazyIter) else a for a in args]
         if name in LOSSY_NP:
             raise LossyOperation("np.%s" % name, self.where(n))
@@ -3185,6 +3236,12 @@ class Interp:
             self.check_dtype(kw, n, args[0])
             v = args[0]
             if isinstance(v, Pose) and name == "asanyarray":
+                return v
+            if name in ("asarray", "asanyarray", "ascontiguousarray") and isinstance(v, Arr) and "dtype" not in kw or \
+                    (name in ("asarray", "asanyarray", "ascontiguousarray") and isinstance(v, Arr) and self.is_float64(kw.get("dtype"))):
+                # no copy is made for an array that already has the requested type
+                if isinstance(v, Pose):
+                    return Arr(v.data, 1) if name == "asarray" else v
                 return v
             return self.to_arr(v, n)
         if name in ("cos", "sin"):
